@@ -49,6 +49,7 @@ impl<T> AtomicWeak<T> {
     /// Panics if `order` is `Release` or `AcqRel`.
     #[inline]
     pub fn load<'g>(&self, order: Ordering, guard: &'g Guard) -> WeakSnapshot<'g, T> {
+        vpoint!(Link, &self.link as *const _);
         WeakSnapshot::from_raw(self.link.load(order), guard)
     }
 
@@ -60,7 +61,14 @@ impl<T> AtomicWeak<T> {
     pub fn store(&self, ptr: Weak<T>, order: Ordering, guard: &Guard) {
         let new_ptr = ptr.ptr;
         forget(ptr);
+        vpoint!(Link, &self.link as *const _);
         let old_ptr = self.link.swap(new_ptr, order);
+        vevent!(LinkWrite {
+            cell: &self.link as *const _ as usize,
+            old: old_ptr.verif_word(),
+            new: new_ptr.verif_word(),
+            weak: true
+        });
         unsafe {
             if let Some(cnt) = old_ptr.as_raw().as_mut() {
                 RcInner::decrement_weak(cnt, Some(guard));
@@ -75,7 +83,14 @@ impl<T> AtomicWeak<T> {
     #[inline(always)]
     pub fn swap(&self, new: Weak<T>, order: Ordering) -> Weak<T> {
         let new_ptr = new.into_raw();
+        vpoint!(Link, &self.link as *const _);
         let old_ptr = self.link.swap(new_ptr, order);
+        vevent!(LinkWrite {
+            cell: &self.link as *const _ as usize,
+            old: old_ptr.verif_word(),
+            new: new_ptr.verif_word(),
+            weak: true
+        });
         Weak::from_raw(old_ptr)
     }
 
@@ -105,11 +120,18 @@ impl<T> AtomicWeak<T> {
         failure: Ordering,
         guard: &'g Guard,
     ) -> Result<Weak<T>, CompareExchangeError<Weak<T>, WeakSnapshot<'g, T>>> {
+        vpoint!(Link, &self.link as *const _);
         match self
             .link
             .compare_exchange(expected.ptr, desired.ptr, success, failure)
         {
             Ok(_) => {
+                vevent!(LinkWrite {
+                    cell: &self.link as *const _ as usize,
+                    old: expected.ptr.verif_word(),
+                    new: desired.verif_word(),
+                    weak: true
+                });
                 // Skip decrementing a weak count of the inserted pointer.
                 forget(desired);
                 let weak = Weak::from_raw(expected.ptr);
@@ -150,11 +172,18 @@ impl<T> AtomicWeak<T> {
         failure: Ordering,
         guard: &'g Guard,
     ) -> Result<Weak<T>, CompareExchangeError<Weak<T>, WeakSnapshot<'g, T>>> {
+        vpoint!(Link, &self.link as *const _);
         match self
             .link
             .compare_exchange_weak(expected.ptr, desired.ptr, success, failure)
         {
             Ok(_) => {
+                vevent!(LinkWrite {
+                    cell: &self.link as *const _ as usize,
+                    old: expected.ptr.verif_word(),
+                    new: desired.verif_word(),
+                    weak: true
+                });
                 // Skip decrementing a weak count of the inserted pointer.
                 forget(desired);
                 let weak = Weak::from_raw(expected.ptr);
@@ -202,10 +231,22 @@ impl<T> AtomicWeak<T> {
     ) -> Result<WeakSnapshot<'g, T>, CompareExchangeError<WeakSnapshot<'g, T>, WeakSnapshot<'g, T>>>
     {
         let desired_raw = expected.ptr.with_tag(desired_tag);
+        vpoint!(Link, &self.link as *const _);
         match self
             .link
             .compare_exchange(expected.ptr, desired_raw, success, failure)
         {
+            #[cfg(feature = "circ_verif")]
+            Ok(current) => {
+                vevent!(LinkWrite {
+                    cell: &self.link as *const _ as usize,
+                    old: current.verif_word(),
+                    new: desired_raw.verif_word(),
+                    weak: true
+                });
+                Ok(WeakSnapshot::from_raw(current, guard))
+            }
+            #[cfg(not(feature = "circ_verif"))]
             Ok(current) => Ok(WeakSnapshot::from_raw(current, guard)),
             Err(current) => Err(CompareExchangeError {
                 desired: WeakSnapshot::from_raw(desired_raw, guard),
@@ -262,6 +303,11 @@ impl<T> Pointer for AtomicWeak<T> {
 impl<T> Drop for AtomicWeak<T> {
     #[inline(always)]
     fn drop(&mut self) {
+        vevent!(CellDrop {
+            cell: &self.link as *const _ as usize,
+            word: (*self.link.get_mut()).verif_word(),
+            weak: true
+        });
         let ptr = (*self.link.get_mut()).as_raw();
         unsafe {
             if let Some(cnt) = ptr.as_mut() {
